@@ -65,21 +65,21 @@ func ProcessInit() {
 
 // Options configure one stack instance.
 type Options struct {
-	Dir          string // scratch directory (must exist); the SQLite file lives here
-	DBFile       string // optional explicit file name (default bhs.db)
-	UseAuth      bool
-	AdminToken   string
-	MerkleExcess *int
-	MaxTries     int
-	Profiling    *bool
-	Metrics      bool
-	WrapHeaders  func(repository.Headers) repository.Headers
-	WrapServices func(*service.Services)
+	Dir           string // scratch directory (must exist); the SQLite file lives here
+	DBFile        string // optional explicit file name (default bhs.db)
+	UseAuth       bool
+	AdminToken    string
+	MerkleExcess  *int
+	MaxTries      int
+	Profiling     *bool
+	Metrics       bool
+	WrapHeaders   func(repository.Headers) repository.Headers
+	WrapServices  func(*service.Services)
 	WebhookClient notification.WebhookTargetClient
-	Websocket    bool // build the websocket server and register SetupEntrypoint + notifier channels (as main does)
-	Peers        map[*peerpkg.Peer]*peerpkg.SyncState
-	Cfg          func(*config.AppConfig)
-	Logger       *zerolog.Logger
+	Websocket     bool // build the websocket server and register SetupEntrypoint + notifier channels (as main does)
+	Peers         map[*peerpkg.Peer]*peerpkg.SyncState
+	Cfg           func(*config.AppConfig)
+	Logger        *zerolog.Logger
 }
 
 // Stack is one running instance.
@@ -267,9 +267,9 @@ func (s *Stack) Get(target string) Response {
 // Row is one raw row of the headers table.
 type Row struct {
 	Hash, Prev, Merkle, State, Chainwork, CumWork, Bits string
-	Height, Version, Nonce                               int64
-	TimestampUnix                                        int64
-	TimestampRaw                                         string
+	Height, Version, Nonce                              int64
+	TimestampUnix                                       int64
+	TimestampRaw                                        string
 }
 
 // Key renders the immutable part of a row.
